@@ -15,7 +15,7 @@ M = [
   "sorted_edges = sorted([sorted(edge) for edge in m.edges()])", "sorted_edges = sorted([list(edge) for edge in m.edges()])"),
  ("m05_traversal_unsorted", ["C01"], "tucan/serialization.py",
   "neighbor_traversal_order.extend(sorted(neighbors_this_priority))", "neighbor_traversal_order.extend(neighbors_this_priority)"),
- ("m06_refinement_stops_early", ["C13", "C01"], "tucan/canonicalization.py",
+ ("m06_refinement_stops_early", ["C13"], "tucan/canonicalization.py",
   "    while True:\n        m_refined = partition_molecule_by_attribute(m, PARTITION)\n",
   "    for _ in range(64):\n        m_refined = partition_molecule_by_attribute(m, PARTITION)\n"),
  ("m08_serializer_drops_rad_when_mass", ["C02", "C03", "C05"], "tucan/serialization.py",
@@ -28,7 +28,8 @@ M = [
  ("m14_charge_in_invariant_code", ["C06"], "tucan/graph_utils.py",
   "        InvariantCodeDefinition(RAD, 0),\n", "        InvariantCodeDefinition(RAD, 0),\n        InvariantCodeDefinition(\"chg\", 0),\n"),
  ("m16_coordinate_tie_break", ["C06", "C01"], "tucan/graph_utils.py",
-  "        (attribute_sequence(m, atom, attribute), atom) for atom in m\n", "        (attribute_sequence(m, atom, attribute), m.nodes[atom].get(\"x_coord\", 0), atom) for atom in m\n"),
+  "    sorted_attr, labels_sorted_by_attr = zip(\n        *sorted(attr_with_labels)\n    )  # (A, B, C), (0, 2, 1)\n",
+  "    sorted_attr, labels_sorted_by_attr = zip(\n        *sorted(attr_with_labels, key=lambda t: (t[0], m.nodes[t[1]].get(\"x_coord\", 0), t[1]))\n    )  # (A, B, C), (0, 2, 1)\n"),
  ("m17_continuation_lstrip", ["C07", "C09"], "tucan/io/molfile_v3000_reader.py",
   "line_deque.appendleft(curr_line[0:-1] + next_line[7:])", "line_deque.appendleft(curr_line[0:-1] + next_line[7:].lstrip())"),
  ("m18_star_drops_last_endpoint", ["C07"], "tucan/io/molfile_v3000_reader.py",
@@ -61,7 +62,7 @@ M = [
   "    m_relabeled = nx.relabel_nodes(m, dict(zip(permuted_labels, labels)), copy=True)", "    m_relabeled = nx.relabel_nodes(m, dict(zip(permuted_labels, labels)), copy=False)"),
  ("m39_dt_mass_overridden_by_zero_mass_kw", ["C07"], "tucan/io/molfile_v3000_reader.py",
   "            if not isotope_mass\n            else [isotope_mass]\n", "            if not isotope_mass or any(i.startswith(\"MASS=\") for i in line)\n            else [isotope_mass]\n"),
- ("m40_writer_bond_block_for_zero_bonds", ["C09"], "tucan/io/molfile_writer.py",
+ ("m40_writer_bond_block_for_zero_bonds_EQUIVALENT", [], "tucan/io/molfile_writer.py",
   "    if graph.number_of_edges() == 0:\n        return\n", "    if graph.number_of_nodes() == 0:\n        return\n"),
  ("m41_recursive_refinement", ["C15"], "tucan/canonicalization.py", "REVERT", "0d4e104"),
  ("m42_igraph_convention", ["C01", "C03", "C04", "C11"], "tucan/canonicalization.py", "REVERT", "cdc06e6"),
